@@ -112,23 +112,20 @@ func (e *Enc) appendCall(f *frame, st *State, in *ssa.Call, args []Val, resShape
 		rowSrc := fmt.Sprintf("(select %s %s)", h.Term, t.Sub[0].T)
 		e.frameLemmas(h, t.Sub[0].T, map[*Heap]bool{})
 		nrow := e.fresh("arow_"+sanitize(l.Path), "(Array Int "+l.K.Sort()+")")
-		// constrain nrow pointwise via a quantifier-free trick for the constant-length case
+		// nrow[j] for j in the copied prefix, in the appended part, and (in place) elsewhere;
+		// every axiom triggers on (select nrow j).
+		e.assume(fmt.Sprintf("(forall ((j Int)) (! (=> (and (<= %s j) (< j (+ %s %s))) (= (select %s j) (select %s (+ %s (- j %s))))) :pattern ((select %s j))))",
+			off, off, s.Sub[2].T, nrow, rowOld, s.Sub[1].T, off, nrow))
 		if n, ok := constLen(t); ok {
-			// copied prefix is described by a quantifier (only needed when reading old elements)
-			e.assume(fmt.Sprintf("(forall ((k Int)) (! (=> (and (<= 0 k) (< k %s)) (= (select %s (+ %s k)) (select %s (+ %s k)))) :pattern ((select %s (+ %s k)))))",
-				s.Sub[2].T, nrow, off, rowOld, s.Sub[1].T, nrow, off))
 			for k := 0; k < n; k++ {
 				e.assume(fmt.Sprintf("(= (select %s (+ %s %s %d)) (select %s (+ %s %d)))", nrow, off, s.Sub[2].T, k, rowSrc, t.Sub[1].T, k))
 			}
-			// in-place case: elements outside [off, off+newLen) keep their values
-			e.assume(fmt.Sprintf("(=> %s (forall ((k Int)) (! (=> (or (< k (+ %s %s)) (>= k (+ %s %s))) (= (select %s k) (select %s k))) :pattern ((select %s k)))))",
-				fits, off, s.Sub[2].T, off, newLen, nrow, rowOld, nrow))
 		} else {
-			e.assume(fmt.Sprintf("(forall ((k Int)) (! (=> (and (<= 0 k) (< k %s)) (= (select %s (+ %s k)) (select %s (+ %s k)))) :pattern ((select %s (+ %s k)))))",
-				s.Sub[2].T, nrow, off, rowOld, s.Sub[1].T, nrow, off))
-			e.assume(fmt.Sprintf("(forall ((k Int)) (! (=> (and (<= 0 k) (< k %s)) (= (select %s (+ %s %s k)) (select %s (+ %s k)))) :pattern ((select %s (+ %s %s k)))))",
-				t.Sub[2].T, nrow, off, s.Sub[2].T, rowSrc, t.Sub[1].T, nrow, off, s.Sub[2].T))
+			e.assume(fmt.Sprintf("(forall ((j Int)) (! (=> (and (<= (+ %s %s) j) (< j (+ %s %s))) (= (select %s j) (select %s (+ %s (- j (+ %s %s)))))) :pattern ((select %s j))))",
+				off, s.Sub[2].T, off, newLen, nrow, rowSrc, t.Sub[1].T, off, s.Sub[2].T, nrow))
 		}
+		e.assume(fmt.Sprintf("(=> %s (forall ((j Int)) (! (=> (or (< j (+ %s %s)) (>= j (+ %s %s))) (= (select %s j) (select %s j))) :pattern ((select %s j)))))",
+			fits, off, s.Sub[2].T, off, newLen, nrow, rowOld, nrow))
 		nh := &Heap{Name: h.Name, Sort: h.Sort, Indexed: true, Prev: h}
 		nh.Term = e.define("H_"+sanitize(h.Name), h.Sort, fmt.Sprintf("(store %s %s %s)", h.Term, base, nrow))
 		st.heaps[h.Name] = nh
@@ -356,6 +353,32 @@ func (e *Enc) contractCall(f *frame, st *State, in *ssa.Call, callee *ssa.Functi
 	}
 	pre := st.clone()
 	nextAtCall := st.next
+	// the callee's entry-state lets, evaluated on the actual arguments
+	calleeLets := map[string]Val{}
+	for _, el := range fc.EntryLets {
+		ex, err := parseSpec(el[1])
+		if err != nil {
+			panic(contractErr{fmt.Sprintf("%s: entrylet %s: %v", name, el[0], err)})
+		}
+		lenv := &SpecEnv{vars: map[string]Val{}, st: st.clone(), fc: fc}
+		for i, p := range callee.Params {
+			lenv.vars[p.Name()] = args[i]
+		}
+		for k, v := range calleeLets {
+			lenv.vars[k] = v
+		}
+		func() {
+			defer func() {
+				if r := recover(); r != nil {
+					if se, ok := r.(specErr); ok {
+						panic(contractErr{fmt.Sprintf("%s: entrylet %s: %s", name, el[0], se.msg)})
+					}
+					panic(r)
+				}
+			}()
+			calleeLets[el[0]] = e.evalSpec(ex, lenv)
+		}()
+	}
 	// modifies
 	if fc.HasModifies {
 		// caller-side frame obligation: what the callee may write must be allowed here too
@@ -379,6 +402,9 @@ func (e *Enc) contractCall(f *frame, st *State, in *ssa.Call, callee *ssa.Functi
 	penv := &SpecEnv{vars: map[string]Val{}, st: st, old: pre, fc: fc}
 	for i, p := range callee.Params {
 		penv.vars[p.Name()] = args[i]
+	}
+	for k, v := range calleeLets {
+		penv.vars[k] = v
 	}
 	names := resultNames(callee)
 	for i, n := range names {
@@ -473,7 +499,7 @@ func (e *Enc) applyModifies(st *State, fc *FuncContract, callee *ssa.Function, a
 			}
 		}
 		if old == nil {
-			st.markDirty(n, &dirtyRec{frame: !typeLevel && len(except) == 0, bound: nextAtCall})
+			st.markDirty(n, newDirty(!typeLevel && len(except) == 0, nextAtCall))
 			continue
 		}
 		nh := e.newHeapVersion(old, "c")
